@@ -24,6 +24,7 @@ pub open spec fn fblamka_spec(a: u64, b: u64) -> u64 {
 }
 
 /// GB(a, b, c, d) on the words at positions a, b, c, d of s (rotations 32, 24, 16, 63 to the right)
+#[verifier::opaque]
 pub open spec fn gb_spec(s: Seq<u64>, a: int, b: int, c: int, d: int) -> Seq<u64> {
     let s = s.update(a, fblamka_spec(s[a], s[b]));
     let s = s.update(d, spec_rotr64(s[d] ^ s[a], 32));
@@ -101,6 +102,74 @@ pub proof fn lemma_fblamka(x: u64, y: u64)
     let r = s.wrapping_add(t);
     assert(r as int == (s + t) % m);
     vstd::arithmetic::div_mod::lemma_add_mod_noop((x + y) as int, (2 * xy) as int, m);
+}
+
+
+pub proof fn lemma_xor_seq_comm(a: Seq<u64>, b: Seq<u64>)
+    requires
+        a.len() == b.len(),
+    ensures
+        xor_seq(a, b) == xor_seq(b, a),
+{
+    assert forall|i: int| 0 <= i < a.len() implies (a[i] ^ b[i]) == (b[i] ^ a[i]) by {
+        let x = a[i];
+        let y = b[i];
+        assert(x ^ y == y ^ x) by (bit_vector);
+    }
+    assert(xor_seq(a, b) =~= xor_seq(b, a));
+}
+
+/// (R xor N) xor Z == (Z xor R) xor N
+pub proof fn lemma_xor_seq_3(r: Seq<u64>, n: Seq<u64>, z: Seq<u64>)
+    requires
+        r.len() == n.len(),
+        r.len() == z.len(),
+    ensures
+        xor_seq(xor_seq(r, n), z) == xor_seq(xor_seq(z, r), n),
+{
+    assert forall|i: int| 0 <= i < r.len() implies ((r[i] ^ n[i]) ^ z[i]) == ((z[i] ^ r[i]) ^ n[i]) by {
+        let x = r[i];
+        let y = n[i];
+        let w = z[i];
+        assert((x ^ y) ^ w == (w ^ x) ^ y) by (bit_vector);
+    }
+    assert(xor_seq(xor_seq(r, n), z) =~= xor_seq(xor_seq(z, r), n));
+}
+
+pub proof fn lemma_gb_len(s: Seq<u64>, a: int, b: int, c: int, d: int)
+    ensures
+        gb_spec(s, a, b, c, d).len() == s.len(),
+{
+    reveal(gb_spec);
+}
+
+pub proof fn lemma_p_at_len(s: Seq<u64>, ix: Seq<int>)
+    ensures
+        p_at(s, ix).len() == s.len(),
+{
+    reveal(gb_spec);
+}
+
+pub proof fn lemma_rows_len(s: Seq<u64>, n: nat)
+    ensures
+        rows_spec(s, n).len() == s.len(),
+    decreases n,
+{
+    if n > 0 {
+        lemma_rows_len(s, (n - 1) as nat);
+        lemma_p_at_len(rows_spec(s, (n - 1) as nat), row_ix(n - 1));
+    }
+}
+
+pub proof fn lemma_cols_len(s: Seq<u64>, n: nat)
+    ensures
+        cols_spec(s, n).len() == s.len(),
+    decreases n,
+{
+    if n > 0 {
+        lemma_cols_len(s, (n - 1) as nat);
+        lemma_p_at_len(cols_spec(s, (n - 1) as nat), col_ix(n - 1));
+    }
 }
 
 } // verus!
